@@ -9,7 +9,14 @@
 //     consequences of the bound (Parseval, sum of bins = n x[0]);
 //   * fft(x, n') = DFT of x zero-padded / truncated to n' for all n' in 1..2n;
 //   * real input: same transform as the complexified input, conjugate symmetric;
-//   * czt(x, m, w, a): ||err||_2 <= 32 n2 eps sqrt(m) ||(x_j a^-j)_j||_2  (DESIGN.md C01).
+//   * czt(x, m, w, a): ||err||_2 <= 32 n2 eps sqrt(m) ||(x_j a^-j)_j||_2  (DESIGN.md C01);
+//     parameter classes (phase 5): real and imaginary part of a INDEPENDENTLY from {0, -0, +-1, 1+-ulp, -1-ulp, +-0.5, random},
+//     a within {eps/2 .. 1e-4} of 1 in five directions (the code's `abs(a - 1) > eps(a.re)` test), w from exact axis points,
+//     points whose real (imaginary) part alone is special, a == w, a == conj(w); (n, m) on the boundaries of the inner
+//     power-of-two size; plan objects reused / after a rejected call;
+//   * magnitude classes (phase 6), every entry point: few-sample and dense signals whose l1 norm is just below DBL_MAX
+//     (every partial sum of the DFT is finite) -> result finite and accurate; 1e-300 / DBL_MIN / denormal scales;
+//     all-zero and negative-zero inputs.
 // CORR: the same calls are replayed by the Lean model (Model/Fft.lean) at Float.
 #include "common.hpp"
 #include <thread>
@@ -37,10 +44,14 @@ struct Res {
     std::map<std::string, double> worst;   // max err/bound per category
     std::vector<std::string> samples;
     long long n_oracle = 0;
+    // known finding C01:cztleaf-top-of-range-nonfinite: per entry point the number of cases and the witness of smallest n
+    struct TopRec { long long count = 0; int n = 0; std::string js; };
+    std::map<std::string, TopRec> top;
 };
 
 static vh::Out out;
 static std::map<std::string, double> g_worst;
+static std::map<std::string, Res::TopRec> g_top;
 
 static void merge(const Res& r) {
     for (auto& c : r.corr) out.corr(c.first, c.second);
@@ -48,6 +59,11 @@ static void merge(const Res& r) {
     for (auto& s : r.stats) out.stat(s.first, s.second);
     for (auto& w : r.worst) g_worst[w.first] = std::max(g_worst[w.first], w.second);
     for (auto& s : r.samples) out.sample(s);
+    for (auto& t : r.top) {
+        auto& g = g_top[t.first];
+        if (g.count == 0 || t.second.n < g.n) { g.n = t.second.n; g.js = t.second.js; }
+        g.count += t.second.count;
+    }
     out.n_oracle += r.n_oracle;
 }
 
@@ -196,10 +212,14 @@ static std::string jvec(const CV& x) {
     return s + "]";
 }
 
+// phases 5/6 name their input class themselves (and add the support of sparse signals)
+static thread_local std::string tl_cls, tl_extra;
+
 static std::string wit(const char* entry, int n, int cls, uint64_t seed, const CV& x, ld err, ld bound, int np = -1) {
     std::string s = std::string("{\"entry\":\"") + entry + "\",\"n\":" + std::to_string(n);
     if (np >= 0) s += ",\"n_out\":" + std::to_string(np);
-    s += std::string(",\"class\":\"") + CLS_NAME[cls] + "\",\"seed\":" + std::to_string(seed) + ",\"rel_err\":" + vh::jnum(double(err)) +
+    s += tl_extra;
+    s += std::string(",\"class\":\"") + (tl_cls.empty() ? std::string(CLS_NAME[cls]) : tl_cls) + "\",\"seed\":" + std::to_string(seed) + ",\"rel_err\":" + vh::jnum(double(err)) +
          ",\"bound\":" + vh::jnum(double(bound));
     if (x.size() <= 16) s += ",\"x\":" + jvec(x);
     return s + "}";
@@ -215,7 +235,10 @@ struct Ref {
 };
 
 // returns err / (bound * norm); records failure
-static void check(Res& R, const char* entry, const char* cat, const arr_cmplx& y, const Ref& ref, int cls, uint64_t seed, const CV& x, int np = -1) {
+// absfloor: absolute l2 error allowed on top of the relative bound (only the denormal-scale classes use it: below
+// DBL_MIN every operation has an ABSOLUTE rounding error of up to one denormal step)
+static void check(Res& R, const char* entry, const char* cat, const arr_cmplx& y, const Ref& ref, int cls, uint64_t seed, const CV& x, int np = -1,
+                  ld absfloor = 0) {
     const int n = ref.n;
     R.n_oracle++;
     const ld bound = 32 * ld(n) * EPSD;
@@ -231,6 +254,12 @@ static void check(Res& R, const char* entry, const char* cat, const arr_cmplx& y
     // when only some bins are held, e2 is a LOWER bound of ||Y - X||^2 (no extrapolation: errors of structured
     // inputs concentrate in few bins), so exceeding the bound is a definite violation
     ld err = sqrtl(e2);
+    if (absfloor > 0 && finite && !(err <= 32 * ld(n) * EPSD * ref.norm)) {
+        // the relative bound alone does not hold (denormal range): how much of the absolute allowance is used
+        auto& wf = R.worst[std::string(cat) + "-absfloor-used"];
+        wf = std::max(wf, double(err / absfloor));
+    }
+    if (absfloor > 0) err = err > absfloor ? err - absfloor : 0;
     ld rel;
     if (ref.norm == 0) rel = (err == 0) ? 0 : 1e30L;
     else rel = err / ref.norm;
@@ -258,7 +287,7 @@ static void check(Res& R, const char* entry, const char* cat, const arr_cmplx& y
 
 // difference of two outputs, relative to ||X||, must be <= 2*bound (triangle inequality); conj symmetry likewise
 static void check_pair(Res& R, const char* entry, const char* cat, const arr_cmplx& y1, const arr_cmplx& y2, bool mirror, const Ref& ref, int cls,
-                       uint64_t seed, const CV& x) {
+                       uint64_t seed, const CV& x, ld absfloor = 0) {
     const int n = ref.n;
     R.n_oracle++;
     const ld bound = 2 * 32 * ld(n) * EPSD;
@@ -270,7 +299,9 @@ static void check_pair(Res& R, const char* entry, const char* cat, const arr_cmp
         const ld di = mirror ? ld(y1[k].im) + y2[k2].im : ld(y1[k].im) - y2[k2].im;
         e2 += dr * dr + di * di;
     }
-    ld rel = ref.norm == 0 ? (e2 == 0 ? 0 : 1e30L) : sqrtl(e2) / ref.norm;
+    ld e1 = sqrtl(e2);
+    if (absfloor > 0 && e1 == e1) e1 = e1 > 2 * absfloor ? e1 - 2 * absfloor : 0;
+    ld rel = ref.norm == 0 ? (e1 == 0 ? 0 : 1e30L) : e1 / ref.norm;
     if (!(rel == rel)) rel = 1e30L;
     const double ratio = double(rel / bound);
     auto& w = R.worst[cat];
@@ -409,6 +440,18 @@ static void sweep(int n, uint64_t seed, const SweepCfg& cfg, Res& R) {
         check_pair(R, "fft(arr_real)[k] vs conj fft(arr_real)[n-k]", "conj-symmetry", y3, y3, true, rref, cls, wseed, xr);
         check_pair(R, "fft(complex(arr_real)) conj symmetry", "conj-symmetry", y6, y6, true, rref, cls, wseed, xr);
         R.stats[std::string("class_") + CLS_NAME[cls]]++;
+        if (cls == GAUSS || cls == DYN) {
+            // the operand is also the destination (x = fft(x), x = plan(x)): same bits as with a distinct destination
+            arr_cmplx z1 = ax, z2 = ax;
+            z1 = fft(z1);
+            z2 = planc(z2);
+            R.n_oracle++;
+            bool same = z1.size() == y1.size() && z2.size() == y2.size();
+            for (int k = 0; k < n && same; ++k)
+                same = std::memcmp(&z1[k], &y1[k], sizeof(cmplx_t)) == 0 && std::memcmp(&z2[k], &y2[k], sizeof(cmplx_t)) == 0;
+            if (!same) R.fails.push_back({"C01:aliasing-operand-is-destination", wit("x = fft(x) / x = plan(x)", n, cls, wseed, x, 0, 0)});
+            R.stats["aliasing_probes"]++;
+        }
 
         const bool emit = (cfg.corr_full_gauss && cls == GAUSS) || cfg.corr_full_all;
         if (emit) {
@@ -474,6 +517,122 @@ static void padtrunc(int n, uint64_t seed, bool corr, Res& R) {
 }
 
 // ---------------------------------------------------------------- czt
+struct CztIn {
+    int n = 1, m = 1;
+    cmplx_t w{1, 0}, a{1, 0};
+    CV x;
+    int entry = 1;   // 0 czt(x, m, w) (default a)  1 czt(x, m, w, a)  2 CztPlan  3 CztPlan, second call  4 CztPlan after a rejected call
+    int id = 0;
+    std::string cls;
+};
+
+// reference a^-j, j < n, in long double: polar form, cross-checked against repeated multiplication by 1/a (short runs)
+static CV ref_apow(cmplx_t a, int n, bool& selfcheck_ok) {
+    const ld ar = a.re, ai = a.im;
+    const ld ra = hypotl(ar, ai), pa = atan2l(ai, ar);
+    CV p(n);
+    for (int j = 0; j < n; ++j) {
+        const ld mag = powl(ra, -ld(j));
+        p[j] = {mag * cosl(-pa * j), mag * sinl(-pa * j)};
+    }
+    selfcheck_ok = true;
+    if (n <= 40) {
+        const ld q = ar * ar + ai * ai;
+        const C inv{ar / q, -ai / q};
+        C r{1, 0};
+        for (int j = 0; j < n; ++j) {
+            const ld d = sqrtl(n2(r - p[j])), sc = sqrtl(n2(p[j]));
+            if (!(d <= 64 * 1.0842021724855044e-19L * (j + 1) * sc)) selfcheck_ok = false;
+            r = r * inv;
+        }
+    }
+    return p;
+}
+
+// runs one czt call on the implementation; ORACLE: the chirp-z definition sum_j x[j] a^-j w^(jk), direct O(n m) sum in
+// long double (w taken on the unit circle: its argument; a exactly as given); CORR: the model replays the call
+static void czt_eval(const CztIn& q, uint64_t seed, bool corr, bool oracle, bool sample, Res& R) {
+    const int n = q.n, m = q.m;
+    const cmplx_t w = q.w, a = q.a;
+    const CV& x = q.x;
+    const arr_cmplx ax = to_arr(x);
+    static const char* ENT[] = {"czt(x,m,w)", "czt(x,m,w,a)", "CztPlan", "CztPlan second call", "CztPlan after rejected call"};
+    const std::string js = "{\"entry\":\"" + std::string(ENT[q.entry]) + "\",\"class\":\"" + q.cls + "\",\"n\":" + std::to_string(n) + ",\"m\":" + std::to_string(m) +
+                           ",\"w\":[" + vh::jnum(w.re) + "," + vh::jnum(w.im) + "],\"a\":[" + vh::jnum(a.re) + "," + vh::jnum(a.im) + "],\"seed\":" +
+                           std::to_string(seed) + ",\"id\":" + std::to_string(q.id) + (n <= 16 ? ",\"x\":" + jvec(x) : std::string()) + "}";
+    arr_cmplx y;
+    switch (q.entry) {
+    case 0: y = czt(ax, m, w); break;
+    case 1: y = czt(ax, m, w, a); break;
+    case 2: { CztPlan plan(n, m, w, a); y = plan(ax); break; }
+    case 3: {   // the plan has served another input before
+        CztPlan plan(n, m, w, a);
+        arr_cmplx other(n);
+        for (int j = 0; j < n; ++j) other[j] = cmplx_t{1.0 + j, -0.5 * j};
+        const arr_cmplx y0 = plan(other);
+        if (q.id % 2) y = plan(ax);
+        else {   // a copy of the used plan, the original is gone when the copy runs
+            std::unique_ptr<CztPlan> orig(new CztPlan(n, m, w, a));
+            const arr_cmplx y00 = (*orig)(other);
+            const CztPlan cp(*orig);
+            orig.reset();
+            y = cp(ax);
+        }
+        if (y0.size() != m) R.fails.push_back({"C01:czt-size-or-nonfinite", js});
+        break;
+    }
+    default: {  // a rejected call (wrong input size) must leave the plan as it was
+        CztPlan plan(n, m, w, a);
+        bool threw = false;
+        try { const arr_cmplx bad = plan(arr_cmplx(n + 1)); (void)bad; } catch (const std::exception&) { threw = true; }
+        R.stats[threw ? "czt_rejected_call_threw" : "czt_rejected_call_accepted"]++;
+        y = plan(ax);
+        break;
+    }
+    }
+    int p2 = 1;
+    while (p2 < m + n - 1) p2 *= 2;
+    if (oracle) {
+        R.n_oracle++;
+        const ld tw = atan2l(ld(w.im), ld(w.re));
+        bool sc_ok = true;
+        const CV ap = ref_apow(a, n, sc_ok);
+        if (!sc_ok) R.fails.push_back({"C01:harness-selfcheck", js});
+        CV xa(n);
+        for (int j = 0; j < n; ++j) xa[j] = x[j] * ap[j];
+        const ld wn = l2(xa);
+        const ld bound = 32 * ld(p2) * EPSD * sqrtl(ld(m)) * wn;
+        ld e2 = 0;
+        bool ok = y.size() == m;
+        for (int k = 0; k < m && ok; ++k) {
+            C acc{0, 0};
+            for (int j = 0; j < n; ++j) {
+                const ld ph = tw * ld((long long)j * k);
+                acc = acc + xa[j] * C{cosl(ph), sinl(ph)};
+            }
+            if (!std::isfinite(y[k].re) || !std::isfinite(y[k].im)) ok = false;
+            e2 += n2(C{y[k].re, y[k].im} - acc);
+        }
+        const ld err = sqrtl(e2);
+        if (!ok) R.fails.push_back({"C01:czt-size-or-nonfinite", js});
+        else {
+            const double ratio = wn == 0 ? (err == 0 ? 0 : 1e30) : double(err / bound);
+            auto& wst = R.worst[q.cls == "base" ? "czt" : "czt-param"];
+            if (ratio > wst) wst = ratio;
+            if (ratio > 0.3 && std::getenv("VERIF_DEBUG")) std::fprintf(stderr, "ratio %.3f czt %s\n", ratio, js.substr(0, 260).c_str());
+            if (!(ratio <= 1)) R.fails.push_back({"C01:czt-accuracy", js.substr(0, js.size() - 1) + ",\"err\":" + vh::jnum(double(err)) + ",\"bound\":" + vh::jnum(double(bound)) + "}"});
+        }
+    } else R.stats["czt_corr_only"]++;
+    R.stats[a.re == 1 && a.im == 0 ? "czt_a_is_one" : "czt_a_general"]++;
+    R.stats[p2 <= 8 ? "czt_inner_small" : "czt_inner_pow2"]++;
+    R.stats[std::string("czt_entry_") + std::to_string(q.entry)]++;
+    if (corr) {
+        // the model evaluates the code's own test `abs(a - 1) > eps(a.re)` on the doubles (driver H01)
+        R.corr.push_back({"czt " + std::to_string(m) + " " + vh::hx(w.re) + " " + vh::hx(w.im) + " " + vh::hx(a.re) + " " + vh::hx(a.im) + " " + vh::hxs(ax), vh::hxs(y)});
+    }
+    if (sample) R.samples.push_back(js);
+}
+
 static void czt_case(int id, uint64_t seed, int maxn, bool corr, Res& R) {
     vh::Rng rng(seed * 0x9e3779b97f4a7c15ULL + uint64_t(id) * 0xd1342543de82ef95ULL + 3);
     int n, m;
@@ -512,55 +671,473 @@ static void czt_case(int id, uint64_t seed, int maxn, bool corr, Res& R) {
         x.assign(n, C{0, 0});
         x[n - 1] = {1, 0};
     }
-    const arr_cmplx ax = to_arr(x);
-    const std::string js = "{\"entry\":\"czt\",\"n\":" + std::to_string(n) + ",\"m\":" + std::to_string(m) + ",\"w\":[" + vh::jnum(w.re) + "," + vh::jnum(w.im) +
-                           "],\"a\":[" + vh::jnum(a.re) + "," + vh::jnum(a.im) + "],\"seed\":" + std::to_string(seed) + ",\"id\":" + std::to_string(id) +
-                           (n <= 16 ? ",\"x\":" + jvec(x) : std::string()) + "}";
-    arr_cmplx y;
-    if (id % 2 == 0) y = (a.re == 1 && a.im == 0 && id % 4 == 0) ? czt(ax, m, w) : czt(ax, m, w, a);
-    else { CztPlan plan(n, m, w, a); y = plan(ax); }
-    R.n_oracle++;
-    // reference: sum_j x[j] a^-j w^(jk), w taken on the unit circle (its argument), a as given
-    const ld tw = atan2l(ld(w.im), ld(w.re));
-    const ld ra = sqrtl(ld(a.re) * a.re + ld(a.im) * a.im), pa = atan2l(ld(a.im), ld(a.re));
-    CV xa(n);
-    for (int j = 0; j < n; ++j) {
-        const ld mag = powl(ra, -ld(j));
-        const C aj{mag * cosl(-pa * j), mag * sinl(-pa * j)};
-        xa[j] = x[j] * aj;
+    CztIn q;
+    q.n = n; q.m = m; q.w = w; q.a = a; q.x = x; q.id = id; q.cls = "base";
+    q.entry = (id % 2 == 0) ? ((a.re == 1 && a.im == 0 && id % 4 == 0) ? 0 : 1) : 2;
+    czt_eval(q, seed, corr, true, id < 3, R);
+}
+
+// ---------------------------------------------------------------- czt parameter classes (phase 5)
+// Every `==` / threshold of lib/fft/czt.cpp defines a boundary class: `abs(a - 1) > eps(a.re)` (start-point correction
+// skipped), `max(m, n)` (chirp length), `2^nextpow2(m + n - 1)` (inner transform size), the {1,2,4,8} kernels of the inner plan.
+static int small_prime(vh::Rng& rng, int hi) {
+    static const int P[] = {2, 3, 5, 7, 11, 13, 17, 19, 23, 29, 31, 37, 41, 43, 47, 53, 59, 61, 67, 71, 73, 79, 83, 89, 97, 101, 127, 131, 251, 257, 293};
+    for (;;) { const int p = P[rng.next() % (sizeof P / sizeof P[0])]; if (p <= hi) return p; }
+}
+
+// component classes of the start point a
+static const int N_COMP = 11;
+static const char* COMP_NAME[N_COMP] = {"0", "-0", "1", "-1", "1+ulp", "1-ulp", "-1-ulp", "0.5", "-0.5", "rnd", "-rnd"};
+static double comp_val(int c, vh::Rng& rng) {
+    switch (c) {
+    case 0: return 0.0;
+    case 1: return -0.0;
+    case 2: return 1.0;
+    case 3: return -1.0;
+    case 4: return std::nextafter(1.0, 2.0);
+    case 5: return std::nextafter(1.0, 0.0);
+    case 6: return std::nextafter(-1.0, -2.0);
+    case 7: return 0.5;
+    case 8: return -0.5;
+    case 9: return 0.5 + 0.9 * rng.unit();
+    default: return -(0.5 + 0.9 * rng.unit());
     }
-    const ld wn = l2(xa);
-    int p2 = 1;
-    while (p2 < m + n - 1) p2 *= 2;
-    const ld bound = 32 * ld(p2) * EPSD * sqrtl(ld(m)) * wn;
-    ld e2 = 0;
-    bool ok = y.size() == m;
-    for (int k = 0; k < m && ok; ++k) {
-        C acc{0, 0};
-        for (int j = 0; j < n; ++j) {
-            const ld ph = tw * ld((long long)j * k);
-            acc = acc + xa[j] * C{cosl(ph), sinl(ph)};
+}
+
+static void czt_shape(int sc, int maxn, vh::Rng& rng, int& n, int& m) {
+    const int kmax = maxn >= 256 ? 9 : 7;
+    switch (sc) {
+    case 0: n = rng.range(1, 8); m = rng.range(1, 8); break;
+    case 1: n = rng.range(2, maxn); m = n; break;
+    case 2: n = rng.range(2, maxn); m = 1; break;
+    case 3: n = 1; m = rng.range(1, maxn); break;
+    case 4: case 5: case 6: {   // m + n - 1 = 2^k - 1, 2^k, 2^k + 1
+        const int k = rng.range(2, kmax), t = (1 << k) + (sc - 5);
+        n = rng.range(1, std::min(t, maxn));
+        m = t + 1 - n;
+        break;
+    }
+    case 7: n = small_prime(rng, maxn); m = 1 << rng.range(0, kmax - 1); break;
+    case 8: n = 1 << rng.range(0, kmax - 1); m = small_prime(rng, maxn); break;
+    case 9: n = small_prime(rng, maxn); m = small_prime(rng, maxn); break;
+    case 10: n = rng.range(2, maxn); m = rng.range(1, n - 1); break;   // m < n
+    default: n = rng.range(1, maxn - 1); m = rng.range(n + 1, maxn); break;   // m > n
+    }
+    if (m < 1) m = 1;
+}
+static const int N_SHAPE = 12;
+
+static CV czt_input(int kind, int n, vh::Rng& rng) {
+    CV x(n, C{0, 0});
+    switch (kind) {
+    case 0: for (auto& v : x) v = {rng.gauss(), rng.gauss()}; break;
+    case 1: for (auto& v : x) v = {rng.gauss(), 0.0}; break;            // real input
+    case 2: for (auto& v : x) v = {rng.gauss(), -0.0}; break;           // real input, negative-zero imaginary parts
+    case 3: x = make_input(DYN, n, rng).x; break;
+    case 4: x[n - 1] = {rng.gauss() + 1.5, rng.gauss()}; break;         // all weight on the last sample (largest a^-j, longest chirp phase)
+    case 5: { const C c{0.75 + rng.unit(), rng.sym()}; for (auto& v : x) v = c; break; }
+    case 6: for (auto& v : x) v = {rng.gauss() * 1e-290, rng.gauss() * 1e-290}; break;
+    default: for (auto& v : x) v = {rng.gauss() * 1e100, rng.gauss() * 1e100}; break;
+    }
+    return x;
+}
+static const int N_CZT_INPUT = 8;
+
+static void czt_param_case(int id, uint64_t seed, int maxn, bool corr, Res& R) {
+    vh::Rng rng(seed * 0x9e3779b97f4a7c15ULL + uint64_t(id) * 0xd1342543de82ef95ULL + 0x5151);
+    const double PI = 3.141592653589793;
+    CztIn q;
+    q.id = id;
+    const int NPAIR = N_COMP * N_COMP;
+    bool oracle = true;
+    if (id % 4 == 3) {
+        // ---- a within a few ulp .. 1e-4 of 1: the start-point correction may only be skipped when it is invisible.
+        //      Few output points and long inputs make a dropped factor a^-j stand out of the bound as early as possible.
+        static const double DELTA[] = {1.1102230246251565e-16, 2.220446049250313e-16, 4.440892098500626e-16, 1e-15, 1e-14, 1e-13, 1e-12, 1e-10, 1e-8, 1e-6, 1e-4};
+        static const int ND = sizeof DELTA / sizeof DELTA[0];
+        const int k = id / 4;
+        const double d = DELTA[k % ND];
+        const int dir = (k / ND) % 6;
+        switch (dir) {
+        case 0: q.a = cmplx_t{1.0 + d, 0.0}; break;
+        case 1: q.a = cmplx_t{1.0 - d, 0.0}; break;
+        case 2: q.a = cmplx_t{1.0, d}; break;
+        case 3: q.a = cmplx_t{1.0, -d}; break;
+        case 4: q.a = cmplx_t{1.0 + d, -d}; break;
+        default: q.a = cmplx_t{1.0 - d, d}; break;
         }
-        if (!std::isfinite(y[k].re) || !std::isfinite(y[k].im)) ok = false;
-        e2 += n2(C{y[k].re, y[k].im} - acc);
+        q.n = rng.range(std::max(2, maxn / 2), maxn);
+        q.m = rng.range(1, 3);
+        const double th = (k % 3 == 0) ? -2 * PI / q.n : PI * rng.sym();
+        q.w = cmplx_t{std::cos(th), std::sin(th)};
+        q.x = czt_input(rng.coin() ? 0 : 4, q.n, rng);
+        q.cls = std::string("a=1+delta dir") + std::to_string(dir);
+        R.stats["cztp_a_near_one"]++;
+    } else {
+        // ---- real and imaginary part of a independently from the component classes
+        const int k = id - id / 4;   // dense numbering of the ids of this branch
+        int ca = k % N_COMP, cb = (k / N_COMP) % N_COMP;
+        const int round = k / NPAIR;
+        if (ca <= 1 && cb <= 1) { ca = 9; cb = (cb == 0) ? 2 : 5; }   // a = 0 is outside the domain: (rnd, 1), (rnd, 1-ulp) instead
+        double re = comp_val(ca, rng), im = comp_val(cb, rng);
+        q.a = cmplx_t{re, im};
+        q.cls = std::string("a=(") + COMP_NAME[ca] + "," + COMP_NAME[cb] + ")";
+        // w classes
+        const int wc = (round + 3 * ca + 7 * cb) % 16;
+        const int sc = (round * 5 + ca + 2 * cb + int(rng.next() % 3)) % N_SHAPE;
+        czt_shape(sc, maxn, rng, q.n, q.m);
+        const double sgn = rng.coin() ? 1.0 : -1.0;
+        double th = 0;
+        switch (wc) {
+        case 0: th = -2 * PI / std::max(q.m, q.n); q.w = cmplx_t{std::cos(th), std::sin(th)}; break;
+        case 1: th = 2 * PI / q.n; q.w = cmplx_t{std::cos(th), std::sin(th)}; break;
+        case 2: q.w = cmplx_t{1.0, 0.0}; break;
+        case 3: q.w = cmplx_t{-1.0, 0.0}; break;
+        case 4: q.w = cmplx_t{-1.0, -0.0}; break;
+        case 5: q.w = cmplx_t{0.0, 1.0}; break;
+        case 6: q.w = cmplx_t{-0.0, -1.0}; break;
+        case 7: q.w = cmplx_t{1.0, sgn * 1e-9}; break;           // real part alone at the special value (|w| = 1 to within an ulp)
+        case 8: q.w = cmplx_t{-1.0, sgn * 1e-9}; break;
+        case 9: q.w = cmplx_t{sgn * 1e-9, 1.0}; break;
+        case 10: q.w = cmplx_t{1.0, sgn * 2e-8}; break;          // |w| = 1 + 1 ulp as computed: still inside the code's |w| = 1 (2 eps)
+        case 11: {   // a == w (random point of the unit circle)
+            th = PI * rng.sym(); q.w = cmplx_t{std::cos(th), std::sin(th)}; q.a = q.w; q.cls = "a==w"; break;
+        }
+        case 12: {   // a == conj(w)
+            th = PI * rng.sym(); q.w = cmplx_t{std::cos(th), std::sin(th)}; q.a = cmplx_t{q.w.re, -q.w.im}; q.cls = "a==conj(w)"; break;
+        }
+        case 13: {   // w = a / |a| (same direction as a), a == w when |a| = 1
+            const double r = std::sqrt(re * re + im * im);
+            q.w = cmplx_t{re / r, im / r};
+            if (std::fabs(std::sqrt(q.w.re * q.w.re + q.w.im * q.w.im) - 1.0) >= 4.4e-16) { th = PI * rng.sym(); q.w = cmplx_t{std::cos(th), std::sin(th)}; }
+            break;
+        }
+        default: th = PI * rng.sym(); q.w = cmplx_t{std::cos(th), std::sin(th)}; break;
+        }
+        if (round % 16 == 15 && wc >= 14) {
+            // |w| != 1: outside the property's domain (the code uses the argument of w only); correspondence with the model only
+            const double r = (ca % 2) ? 0.5 : 1.0 + 1e-6;
+            q.w = cmplx_t{q.w.re * r, q.w.im * r};
+            oracle = false;
+            q.cls += " |w|!=1";
+        }
+        q.x = czt_input((round + ca + cb) % N_CZT_INPUT, q.n, rng);
+        R.stats[std::string("cztp_w_class_") + std::to_string(wc)]++;
+        R.stats[std::string("cztp_shape_") + std::to_string(sc)]++;
+        R.stats[std::string("cztp_are_") + COMP_NAME[ca]]++;
+        R.stats[std::string("cztp_aim_") + COMP_NAME[cb]]++;
+        {
+            // how the code's own test classifies this a, and how a test on the real part alone would
+            const double da = std::sqrt((q.a.re - 1) * (q.a.re - 1) + q.a.im * q.a.im), e = std::nextafter(q.a.re, INFINITY) - q.a.re;
+            const bool skip = !(da > e), skip_re_only = !(std::fabs(q.a.re - 1) > e);
+            if (skip) R.stats["cztp_a_treated_as_one"]++;
+            if (skip_re_only && !skip) R.stats["cztp_a_real_part_alone_is_one"]++;
+        }
     }
-    const ld err = sqrtl(e2);
-    if (!ok) R.fails.push_back({"C01:czt-size-or-nonfinite", js});
-    else {
-        const double ratio = wn == 0 ? (err == 0 ? 0 : 1e30) : double(err / bound);
-        auto& wst = R.worst["czt"];
-        if (ratio > wst) wst = ratio;
-        if (ratio > 0.3 && std::getenv("VERIF_DEBUG")) std::fprintf(stderr, "ratio %.3f czt %s\n", ratio, js.substr(0, 200).c_str());
-        if (!(ratio <= 1)) R.fails.push_back({"C01:czt-accuracy", js.substr(0, js.size() - 1) + ",\"err\":" + vh::jnum(double(err)) + ",\"bound\":" + vh::jnum(double(bound)) + "}"});
-        // for information only: error relative to the plain (unweighted) transform norm
+    q.entry = 1 + int(rng.next() % 4);
+    if (q.entry == 4 && q.n >= maxn) q.entry = 2;
+    czt_eval(q, seed, corr, oracle, false, R);
+}
+
+// ---------------------------------------------------------------- magnitude classes (phase 6)
+// The DFT is linear, so its accuracy clause is scale free; what is NOT scale free is an implementation that moves a
+// scaling across an operation that can overflow / underflow (e.g. halving the OUTPUT of the packed real transform
+// instead of its input).  Signals here have an l1 norm sum_j (|re x_j| + |im x_j|) <= 0.95 * S: every partial sum of
+// every bin, in any order and with any twiddles, is then bounded by S, so an algorithm that only adds, subtracts and
+// rotates by unit twiddles cannot overflow at S = DBL_MAX and the exact DFT is representable: the result must be finite
+// and accurate.  Signals whose exact DFT (or whose partial sums) may legitimately overflow are not generated.
+//
+// Lengths with a prime factor > 41 are solved through Bluestein's chirp-z: its frequency-domain product with the chirp
+// spectrum (|.| up to ~1.25 sqrt(n2), n2 = inner power-of-two size < 4 n) exceeds the signal's own magnitude, so THE
+// UNCHANGED LIBRARY returns NaN there for inputs above ~0.8 DBL_MAX / sqrt(n2) (measured: impulse above 0.0716 DBL_MAX at
+// n = 43, 0.0149 DBL_MAX at n = 1031, 0.00195 DBL_MAX at n = 65537; real even n = 2p: twice that).  For those lengths the
+// demand under the mag-top-* keys is made at S = DBL_MAX / (8 sqrt(n)) (a factor ~4 below that threshold).  Above it the
+// property ("every finite input") is VIOLATED by the unchanged library: decided as a known finding (not repaired).  Exactly
+// the class {length with a Bluestein leaf, l1 norm of the input above DBL_MAX/(8 sqrt n), exact DFT representable, result
+// non-finite} is reported under the ONE key C01:cztleaf-top-of-range-nonfinite ("class":"cztleaf-top"), one F line per entry
+// point and run with the number of such cases; a finite result there must still be accurate (mag-top-* keys), and
+// everything below that magnitude or at lengths without a Bluestein leaf stays under the mag-top-* keys.
+static const ld DMIN = 4.940656458412465441765687928682213723651e-324L;
+
+static int largest_prime_factor(int n) {
+    int big = 1;
+    for (int p = 2; (long long)p * p <= n; ++p) while (n % p == 0) { big = std::max(big, p); n /= p; }
+    if (n > 1) big = std::max(big, n);
+    return big;
+}
+static bool has_czt_leaf(int n) { return largest_prime_factor(n) > 41; }
+
+struct Sig {
+    std::string cls;
+    std::vector<std::pair<int, C>> sup;   // sparse support (unit coefficients, scaled later); empty for dense
+    CV dense;                              // dense unit coefficients
+    bool real = true;
+};
+
+static std::vector<Sig> mag_shapes(int n, bool reduced, bool with_dense, vh::Rng& rng) {
+    std::vector<Sig> v;
+    auto pos = [&](int kind) {
+        switch (kind) {
+        case 0: return 0;
+        case 1: return n > 1 ? 1 : 0;
+        case 2: return n - 1;
+        case 3: return n / 2;
+        case 4: return n > 2 ? 2 * rng.range(0, (n - 1) / 2) : 0;                       // even index
+        case 5: return n > 1 ? std::min(n - 1, 2 * rng.range(0, (n - 1) / 2) + 1) : 0;  // odd index
+        default: return rng.range(0, n - 1);
+        }
+    };
+    const double HALFP = 0.5 * (1.0 + 1.0 / 1048576.0);
+    static const double F[4] = {0.9, 0.6, 0.0, 0.26};
+    for (int fi = 0; fi < 4; ++fi) {
+        const double f = fi == 2 ? HALFP : F[fi];
+        const int reps = reduced ? 1 : 2;
+        for (int r = 0; r < reps; ++r) {
+            Sig s;
+            const int pk = (fi * 2 + r + int(rng.next() % 7)) % 7;
+            s.cls = "real impulse " + std::string(fi == 2 ? "0.5+" : fi == 0 ? "0.9" : fi == 1 ? "0.6" : "0.26");
+            s.sup.push_back({pos(pk), C{rng.coin() ? f : -f, 0}});
+            v.push_back(s);
+        }
     }
-    R.stats[a.re == 1 && a.im == 0 ? "czt_a_is_one" : "czt_a_general"]++;
-    R.stats[p2 <= 8 ? "czt_inner_small" : "czt_inner_pow2"]++;
-    if (corr) {
-        // skipA = the code's own test `abs(a - 1) > eps(a.re)` evaluated on the doubles (mirrored by the driver)
-        R.corr.push_back({"czt " + std::to_string(m) + " " + vh::hx(w.re) + " " + vh::hx(w.im) + " " + vh::hx(a.re) + " " + vh::hx(a.im) + " " + vh::hxs(ax), vh::hxs(y)});
+    if (n >= 2) {
+        Sig s;
+        s.cls = "two real samples 0.556,-0.334";
+        int p = pos(6), q = pos(6);
+        if (q == p) q = (p + 1 + int(rng.next() % unsigned(n - 1))) % n;
+        s.sup.push_back({p, C{0.556, 0}});
+        s.sup.push_back({q, C{-0.334, 0}});
+        v.push_back(s);
     }
-    if (id < 3) R.samples.push_back(js);
+    if (n >= 3 && !reduced) {
+        Sig s;
+        s.cls = "three real samples 0.3";
+        const int p = pos(6);
+        const double sg = rng.coin() ? 0.3 : -0.3;
+        s.sup.push_back({p, C{sg, 0}});
+        s.sup.push_back({(p + 1) % n, C{sg, 0}});
+        s.sup.push_back({(p + 2 + int(rng.next() % unsigned(n - 2))) % n, C{sg, 0}});
+        v.push_back(s);
+    }
+    {
+        static const double CA[4][2] = {{0.6, -0.3}, {0.0, 0.9}, {0.0, 0.26}, {-0.26, 0.6}};
+        for (int i = 0; i < (reduced ? 1 : 4); ++i) {
+            Sig s;
+            s.real = false;
+            s.cls = "complex impulse";
+            const double re = i == 2 ? HALFP : CA[i][0];
+            s.sup.push_back({pos(int(rng.next() % 7)), C{re, CA[i][1]}});
+            v.push_back(s);
+        }
+    }
+    if (n >= 2 && !reduced) {
+        Sig s;
+        s.real = false;
+        s.cls = "two complex samples";
+        const int p = pos(6);
+        s.sup.push_back({p, C{0.3, 0.2}});
+        s.sup.push_back({(p + 1 + int(rng.next() % unsigned(n - 1))) % n, C{-0.25, 0.15}});
+        v.push_back(s);
+    }
+    if (with_dense && n >= 2) {
+        Sig s;
+        s.cls = "dense real, l1 norm 0.9";
+        s.dense.assign(n, C{0, 0});
+        for (auto& c : s.dense) c = {0.9 * rng.sym() / n, 0};
+        v.push_back(s);
+        Sig t;
+        t.real = false;
+        t.cls = "dense complex, l1 norm 0.9";
+        t.dense.assign(n, C{0, 0});
+        for (auto& c : t.dense) c = {0.45 * rng.sym() / n, 0.45 * rng.sym() / n};
+        v.push_back(t);
+    }
+    return v;
+}
+
+static bool all_finite(const arr_cmplx& y) {
+    for (int i = 0; i < y.size(); ++i) if (!std::isfinite(y[i].re) || !std::isfinite(y[i].im)) return false;
+    return true;
+}
+
+static void mag_len(int n, uint64_t seed, bool thorough, int corr_every, Res& R) {
+    vh::Rng rng(seed * 0x632be59bd9b4e019ULL + uint64_t(n) * 0x9e3779b97f4a7c15ULL + 0x77);
+    const bool reduced = n > 4096;
+    const bool with_dense = n <= (thorough ? 2048 : 768);
+    const bool cztleaf = has_czt_leaf(n);
+    Table T(n);
+    std::vector<int> ks(n);
+    for (int k = 0; k < n; ++k) ks[k] = k;
+    FftPlan planc(n);
+    FftPlanR planr(n);
+    R.stats[cztleaf ? "mag_lengths_with_czt_leaf" : "mag_lengths_without_czt_leaf"]++;
+    // a rejected call first: everything below runs on plans that have seen a failed call (lesson: failed calls in histories)
+    {
+        int threw = 0;
+        try { const arr_cmplx b = planc(arr_cmplx(n + 1)); (void)b; } catch (const std::exception&) { ++threw; }
+        try { const arr_cmplx b = planr(arr_real(n + 1)); (void)b; } catch (const std::exception&) { ++threw; }
+        R.stats["mag_plan_rejected_calls_threw"] += threw;
+        R.stats["mag_plan_rejected_calls_accepted"] += 2 - threw;
+    }
+    // copies of the plan objects (copy-constructed; the prototypes of the copy-assigned ones die before use): used for every other signal
+    const FftPlan planc_cc(planc);
+    const FftPlanR planr_cc(planr);
+    FftPlan planc_ca(n == 1 ? 2 : 1);
+    FftPlanR planr_ca(n == 1 ? 2 : 1);
+    {
+        const FftPlan tmpc(n);
+        const FftPlanR tmpr(n);
+        planc_ca = tmpc;
+        planr_ca = tmpr;
+    }
+    struct Scale { const char* name; const char* group; double s; bool demanded; bool tiny; };
+    std::vector<Scale> scales;
+    const double MAX = std::numeric_limits<double>::max(), MIN = std::numeric_limits<double>::min();
+    if (cztleaf) {
+        scales.push_back({"DBL_MAX/(8 sqrt n)", "top", MAX / (8.0 * std::sqrt(double(n))), true, false});
+        scales.push_back({"DBL_MAX", "top", MAX, false, false});
+    } else scales.push_back({"DBL_MAX", "top", MAX, true, false});
+    scales.push_back({"1e-300", "e300", 1e-300, true, false});
+    scales.push_back({"DBL_MIN", "denorm", MIN, true, true});
+    if (!reduced) {
+        scales.push_back({"2^-1054", "denorm", std::ldexp(1.0, -1054), true, true});
+        scales.push_back({"2^-1072", "denorm", std::ldexp(1.0, -1072), true, true});
+    }
+    const std::vector<Sig> shapes = mag_shapes(n, reduced, with_dense, rng);
+    int sigidx = 0;
+    for (const Scale& sc : scales)
+        for (const Sig& sg : shapes) {
+            ++sigidx;
+            // the signal in doubles
+            CV x(n, C{0, 0});
+            int n0 = 0;
+            std::string sup = ",\"scale\":\"" + std::string(sc.name) + "\"";
+            if (!sg.dense.empty()) {
+                for (int j = 0; j < n; ++j) x[j] = {ld(double(sg.dense[j].re) * sc.s), ld(double(sg.dense[j].im) * sc.s)};
+                n0 = n;
+            } else {
+                sup += ",\"support\":[";
+                bool first = true;
+                for (auto& e : sg.sup) {
+                    const double re = double(e.second.re) * sc.s, im = double(e.second.im) * sc.s;
+                    x[e.first] = x[e.first] + C{re, im};   // coinciding positions cannot occur (distinct by construction)
+                    n0 = std::max(n0, e.first + 1);
+                    sup += std::string(first ? "" : ",") + "[" + std::to_string(e.first) + "," + vh::jnum(re) + "," + vh::jnum(im) + "]";
+                    first = false;
+                }
+                sup += "]";
+            }
+            tl_cls = sg.cls + " x " + sc.name;
+            tl_extra = sup;
+            // reference
+            Ref ref{n, ks, CV(n), true, 0, 0, 0};
+            if (!sg.dense.empty()) for (int k = 0; k < n; ++k) ref.X[k] = ref_bin(x, T, k);
+            else
+                for (int k = 0; k < n; ++k) {
+                    C acc{0, 0};
+                    for (auto& e : sg.sup) acc = acc + x[e.first] * T.pw((long long)e.first * k);
+                    ref.X[k] = acc;
+                }
+            ref.norm = l2(ref.X);
+            // measured on the unchanged library: l2 error <= 1.8 n denormal steps where the relative bound alone fails
+            const ld floor_ = sc.tiny ? 12 * ld(n) * DMIN * (cztleaf ? 2 : 1) : 0;
+            const std::string g = std::string("mag-") + sc.group + "-";
+            // the known-finding class: Bluestein leaf, l1 norm above DBL_MAX/(8 sqrt n), exact DFT representable
+            ld l1 = 0, xmax = 0;
+            for (int j = 0; j < n; ++j) l1 += fabsl(x[j].re) + fabsl(x[j].im);
+            for (int k = 0; k < n; ++k) xmax = std::max(xmax, std::max(fabsl(ref.X[k].re), fabsl(ref.X[k].im)));
+            const bool top_class = cztleaf && !sc.demanded && l1 > ld(MAX) / (8 * sqrtl(ld(n))) && xmax <= ld(MAX);
+            auto mcheck = [&](const char* entry, const char* cat, const arr_cmplx& y, int np = -1) {
+                if (top_class && y.size() == n && !all_finite(y)) {
+                    R.n_oracle++;
+                    R.stats[std::string("mag_cztleaf_top_nonfinite_") + cat]++;
+                    auto& t = R.top[cat];
+                    if (t.count++ == 0) {
+                        const int p = largest_prime_factor(n);
+                        int p2 = 1;
+                        while (p2 < 2 * p - 1) p2 *= 2;
+                        t.n = n;
+                        t.js = std::string("{\"class\":\"cztleaf-top\",\"entry\":\"") + entry + "\",\"n\":" + std::to_string(n) + ",\"bluestein_leaf\":" + std::to_string(p) +
+                               ",\"n2\":" + std::to_string(p2) + ",\"input\":\"" + sg.cls + " x " + sc.name + "\"" + sup + ",\"S_over_DBL_MAX\":" + vh::jnum(double(l1 / ld(MAX))) +
+                               ",\"exact_dft_max_component_over_DBL_MAX\":" + vh::jnum(double(xmax / ld(MAX))) + ",\"seed\":" + std::to_string(seed);
+                    }
+                    return false;
+                }
+                if (top_class) R.stats[std::string("mag_cztleaf_top_finite_") + cat]++;
+                check(R, entry, (g + cat).c_str(), y, ref, 0, seed, x, np, floor_);
+                return all_finite(y);
+            };
+            const arr_cmplx ax = to_arr(x);
+            const arr_cmplx y1 = fft(ax);
+            mcheck("fft(arr_cmplx)", "fft-complex", y1);
+            const arr_cmplx y2 = sigidx % 3 == 0 ? planc(ax) : sigidx % 3 == 1 ? planc_cc(ax) : planc_ca(ax);
+            mcheck(sigidx % 3 == 0 ? "FftPlan(n)(arr_cmplx)" : sigidx % 3 == 1 ? "copy-constructed FftPlan(n)(arr_cmplx)" : "copy-assigned FftPlan(n)(arr_cmplx)", "plan-complex", y2);
+            if (n0 < n && n0 >= 1) mcheck("fft(arr_cmplx, n_out)", "fftn-complex", fft(arr_cmplx(ax.slice(0, n0)), n), n);
+            arr_cmplx y4, y5;
+            if (sg.real) {
+                const arr_real ar = to_arr_re(x);
+                const arr_cmplx y3 = fft(ar);
+                const bool f3 = mcheck("fft(arr_real)", "fft-real", y3);
+                y4 = rfft(ar);
+                mcheck("rfft(arr_real)", "rfft", y4);
+                y5 = sigidx % 3 == 0 ? planr(ar) : sigidx % 3 == 1 ? planr_cc(ar) : planr_ca(ar);
+                mcheck(sigidx % 3 == 0 ? "FftPlanR(n)(arr_real)" : sigidx % 3 == 1 ? "copy-constructed FftPlanR(n)(arr_real)" : "copy-assigned FftPlanR(n)(arr_real)", "plan-real", y5);
+                const arr_cmplx y6 = fft(complex(ar));
+                const bool f6 = mcheck("fft(complex(arr_real))", "fft-complexified", y6);
+                if (n0 < n && n0 >= 1) {
+                    mcheck("fft(arr_real, n_out)", "fftn-real", fft(arr_real(ar.slice(0, n0)), n), n);
+                    mcheck("rfft(arr_real, n_out)", "rfftn", rfft(arr_real(ar.slice(0, n0)), n), n);
+                }
+                if (f3 && f6) check_pair(R, "fft(arr_real) vs fft(complex(arr_real))", (g + "real-vs-complex").c_str(), y3, y6, false, ref, 0, seed, x, floor_);
+                if (f3) check_pair(R, "fft(arr_real)[k] vs conj fft(arr_real)[n-k]", (g + "conj-symmetry").c_str(), y3, y3, true, ref, 0, seed, x, floor_);
+            }
+            R.stats[std::string("mag_signals_") + sc.group + (sc.demanded ? "" : "_above_bluestein_threshold")]++;
+            // (Bluestein lengths differ from the model by the chirp phase, relative to the line scale: not at denormal scales)
+            if (corr_every > 0 && sc.demanded && sigidx % corr_every == 0 && n <= 64 && !(sc.tiny && cztleaf)) {
+                const bool use_plan = (n + sigidx) % 2 == 1;
+                R.corr.push_back({"fft " + vh::hxs(ax), vh::hxs(use_plan ? y2 : y1)});
+                if (sg.real) R.corr.push_back({"rfft " + vh::hxs(to_arr_re(x)), vh::hxs(use_plan ? y5 : y4)});
+            }
+        }
+    tl_cls.clear();
+    tl_extra.clear();
+    // ---- zero inputs: +0, -0, mixed -> every output component is a zero (no NaN); a signal with some samples replaced
+    //      by -0.0 gives the values of the same signal with +0.0
+    for (int z = 0; z < 4; ++z) {
+        arr_real ar(n);
+        arr_cmplx ax(n);
+        arr_real br(n);
+        arr_cmplx bx(n);
+        for (int j = 0; j < n; ++j) {
+            const bool neg = z == 1 || ((z >= 2) && (rng.next() % 3 == 0));
+            const double g1 = z == 3 && rng.next() % 2 ? rng.gauss() : 0.0, g2 = z == 3 && rng.next() % 2 ? rng.gauss() : 0.0;
+            br[j] = g1; bx[j] = cmplx_t{g1, g2};
+            ar[j] = (g1 == 0 && neg) ? -0.0 : g1;
+            ax[j] = cmplx_t{(g1 == 0 && neg) ? -0.0 : g1, (g2 == 0 && (neg || rng.next() % 4 == 0)) ? -0.0 : g2};
+        }
+        static const char* ZN[] = {"all +0", "all -0", "mixed +0/-0", "gaussian with -0 samples"};
+        const arr_cmplx ya[5] = {fft(ax), planc(ax), fft(ar), rfft(ar), planr(ar)};
+        const arr_cmplx yb[5] = {fft(bx), planc(bx), fft(br), rfft(br), planr(br)};
+        static const char* EN[5] = {"fft(arr_cmplx)", "FftPlan(n)(arr_cmplx)", "fft(arr_real)", "rfft(arr_real)", "FftPlanR(n)(arr_real)"};
+        for (int e = 0; e < 5; ++e) {
+            R.n_oracle++;
+            bool ok = ya[e].size() == n && yb[e].size() == n;
+            for (int k = 0; k < n && ok; ++k) {
+                if (z < 3) ok = ya[e][k].re == 0.0 && ya[e][k].im == 0.0;
+                else ok = ya[e][k].re == yb[e][k].re && ya[e][k].im == yb[e][k].im;   // NaN fails, -0 == +0
+            }
+            if (!ok) {
+                const std::string js = std::string("{\"entry\":\"") + EN[e] + "\",\"n\":" + std::to_string(n) + ",\"class\":\"" + ZN[z] + "\",\"seed\":" + std::to_string(seed) +
+                                       (n <= 16 ? ",\"x\":" + (e < 2 ? vh::jarr(ax) : vh::jarr(ar)) + ",\"y\":" + vh::jarr(ya[e]) : std::string()) + "}";
+                R.fails.push_back({z < 3 ? "C01:zero-input-nonzero-output" : "C01:negzero-input-differs", js});
+            }
+        }
+        R.stats[z < 3 ? "mag_zero_inputs" : "mag_negzero_inputs"]++;
+        if (corr_every > 0 && n <= 64 && (n + z) % 4 == 0) {
+            R.corr.push_back({"fft " + vh::hxs(ax), vh::hxs(ya[(n / 4) % 2])});
+            R.corr.push_back({"rfft " + vh::hxs(ar), vh::hxs(ya[2 + (n / 4) % 3])});
+        }
+    }
 }
 
 // ---------------------------------------------------------------- structured sample of large lengths
@@ -665,6 +1242,44 @@ int main(int argc, char** argv) {
         });
         vh::unwatch();
         vh::clear_current();
+    }
+    // 5. czt parameter classes
+    if (!only || only[0] == '5') {
+        const int NC = a.thorough ? 8000 : 800;
+        vh::set_current("C01:crash-or-hang", "{\"phase\":\"czt parameter classes\",\"seed\":" + std::to_string(seed) + "}");
+        vh::watch(1200);
+        parallel_for(NC, {}, [&](int id, Res& R) {
+            const int maxn = (a.thorough && id % 5 == 4) ? 300 : 64;
+            // (the model's double chirp phase deviates by ~eps |arg w| N^2 / 2: as in phase 4 only the N <= 64 cases go through CORR)
+            czt_param_case(id, seed, maxn, (id % (a.thorough ? 8 : 2) == 0 || id % 4 == 3) && maxn == 64, R);
+        });
+        vh::unwatch();
+        vh::clear_current();
+    }
+    // 6. magnitude classes
+    if (!only || only[0] == '6') {
+        std::set<int> ls;
+        const int NM = a.thorough ? 1024 : 96;
+        for (int n = 1; n <= NM; ++n) ls.insert(n);
+        for (int n : {100, 120, 127, 128, 129, 172, 243, 255, 256, 257, 258, 500, 512, 1000, 1024, 1031, 2048, 2062, 2187, 4096}) ls.insert(n);
+        {
+            vh::Rng r6(seed * 31 + 6);
+            auto more = big_lengths(r6, a.thorough ? 6 : 1, 1025, a.thorough ? 131072 : 20000);
+            ls.insert(more.begin(), more.end());
+            if (a.thorough) for (int n : {8192, 65536, 131072, 65537, 49152, 98304, 46349 * 2, 131071, 147456, 196608, 262144}) ls.insert(n);
+            else { ls.insert(16384); ls.insert(98304); }   // one frame above 2^16 (2 * 49152)
+        }
+        std::vector<int> lens(ls.rbegin(), ls.rend());   // long tasks first
+        vh::set_current("C01:crash-or-hang", "{\"phase\":\"magnitude classes\",\"seed\":" + std::to_string(seed) + ",\"lengths\":" + vh::jints(lens) + "}");
+        vh::watch(a.thorough ? 3000 : 600);
+        parallel_for(int(lens.size()), {}, [&](int id, Res& R) { mag_len(lens[id], seed, a.thorough, a.thorough ? 9 : 3, R); });
+        vh::unwatch();
+        vh::clear_current();
+        // the known finding: one line per entry point (witness of smallest n, number of cases of this run)
+        for (auto& t : g_top) {
+            out.fail("C01:cztleaf-top-of-range-nonfinite", t.second.js + ",\"count\":" + std::to_string(t.second.count) + "}", 64);
+            out.n_fail += t.second.count - 1;   // every case is an oracle failure, one line stands for all of them
+        }
     }
     for (auto& w : g_worst) {
         std::string k = w.first;
